@@ -102,7 +102,7 @@ var locNames = map[string]string{
 	"/auth/2fa/totp/confirm": "totpConfirm", "/auth/2fa/sms/confirm": "smsConfirm",
 	"/auth/2fa/totp/setup": "totpSetup", "/auth/2fa/sms/setup": "smsSetup",
 	"/auth/2fa/totp/email/verify": "totpEmailVerify", "/auth/2fa/sms/email/verify": "smsEmailVerify",
-	SafeRedir: "redir",
+	SafeRedir: "redir", "/app/tfa-changed": "appTfaChanged",
 }
 
 var pageNames = map[string]string{
@@ -121,7 +121,7 @@ var absKey = map[string]string{
 	authboss.SessionOAuth2State: "oState", authboss.SessionOAuth2Params: "oHas",
 	totp2fa.SessionTOTPSecret: "totpSetup", totp2fa.SessionTOTPPendingPID: "totpPend",
 	"sms_number": "smsNum", "sms_secret": "smsCode", "sms_last": "smsLast", "sms_pending": "smsPend",
-	"app1": "app1", "app2": "app2",
+	"visitor_uuid": "app1", "hide_twofactor_hint": "app2",
 }
 
 func (w *World) pwString(e Event) string {
@@ -677,7 +677,7 @@ func (w *World) Step(e Event) (RespObs, *Req, Resp) {
 		w.In.Cook.Set(e.B, authboss.CookieRemember, v)
 		return envResp(), nil, Resp{}
 	case "AppKey":
-		w.In.Sess.Set(e.B, e.K, "v-"+e.K)
+		w.In.Sess.Set(e.B, AppKeys[e.K], "v-"+e.K)
 		return envResp(), nil, Resp{}
 	}
 	rq := w.BuildReq(e)
